@@ -1,6 +1,6 @@
 (* C11, reader half: read_from_tokens returns exactly the parenthesis structure. *)
 From Coq Require Import List Ascii String Bool Arith Lia.
-From Verif Require Import Base.Result Base.Str Base.Sexp Model.Tokenizer.
+From Verif Require Import Base.Result Base.Str Base.Sexp Model.Tokenizer Spec.Layout.
 Import ListNotations.
 Open Scope string_scope.
 Open Scope list_scope.
@@ -84,17 +84,47 @@ Lemma rd_complete fuel ts e rest :
   rd fuel ts = Ok (e, rest) -> ts = flatten e ++ rest /\ wf e = true.
 Proof. apply rd_complete_aux. Qed.
 
-(* parse_tokens: Ok e  <->  the token list is exactly the flattening of a well-formed e *)
-Theorem parse_tokens_iff ts e :
-  parse_tokens ts = Ok e <-> (ts = flatten e /\ wf e = true).
+(* the strict reader: Ok e  <->  the token list is exactly the flattening of a well-formed e *)
+Theorem parse_tokens_strict_iff ts e :
+  parse_tokens_strict ts = Ok e <-> (ts = flatten e /\ wf e = true).
 Proof.
-  unfold parse_tokens. split.
+  unfold parse_tokens_strict. split.
   - destruct (rd _ ts) as [[e' [|r rs]]|k] eqn:E; try discriminate.
     intros H. injection H as <-. apply rd_complete in E as [-> Hw].
     rewrite app_nil_r. auto.
   - intros [-> Hw]. rewrite <- (app_nil_r (flatten e)) at 2.
     rewrite rd_sound; [reflexivity|exact Hw|].
     rewrite flatten_length_size. lia.
+Qed.
+
+(* the code's reader: Ok e  <->  the token list STARTS with the flattening of a well-formed e *)
+Theorem parse_tokens_iff ts e :
+  parse_tokens ts = Ok e <-> (exists rest, ts = flatten e ++ rest /\ wf e = true).
+Proof.
+  unfold parse_tokens. split.
+  - destruct (rd _ ts) as [[e' rest]|k] eqn:E; try discriminate.
+    intros H. injection H as <-. apply rd_complete in E as [-> Hw]. eauto.
+  - intros (rest & -> & Hw).
+    rewrite rd_sound; [reflexivity|exact Hw|].
+    rewrite app_length, flatten_length_size. lia.
+Qed.
+
+Lemma unread_tokens_spec ts e :
+  parse_tokens ts = Ok e -> ts = flatten e ++ unread_tokens ts.
+Proof.
+  unfold parse_tokens, unread_tokens.
+  destruct (rd _ ts) as [[e' rest]|k] eqn:E; try discriminate.
+  intros H. injection H as <-. apply rd_complete in E as [-> _]. reflexivity.
+Qed.
+
+(* the two readers differ exactly on inputs with unread tokens *)
+Theorem parse_tokens_vs_strict ts :
+  parse_tokens ts = parse_tokens_strict ts \/
+  (exists e, parse_tokens ts = Ok e /\ unread_tokens ts <> [] /\ parse_tokens_strict ts = Err ESyntax).
+Proof.
+  unfold parse_tokens, parse_tokens_strict, unread_tokens.
+  destruct (rd _ ts) as [[e' [|r rs]]|k]; [left; reflexivity| |left; reflexivity].
+  right. exists e'. repeat split. discriminate.
 Qed.
 
 Lemma flatten_nonempty e : 1 <= List.length (flatten e).
@@ -121,6 +151,12 @@ Qed.
 
 Theorem parse_tokens_no_fuel ts : parse_tokens ts <> Err EFuel.
 Proof.
-  unfold parse_tokens. destruct (rd _ ts) as [[e [|r rs]]|k] eqn:E; try discriminate.
+  unfold parse_tokens. destruct (rd _ ts) as [[e rest]|k] eqn:E; try discriminate.
+  intros H. injection H as ->. apply rd_fuel_aux in E. lia.
+Qed.
+
+Theorem parse_tokens_strict_no_fuel ts : parse_tokens_strict ts <> Err EFuel.
+Proof.
+  unfold parse_tokens_strict. destruct (rd _ ts) as [[e [|r rs]]|k] eqn:E; try discriminate.
   intros H. injection H as ->. apply rd_fuel_aux in E. lia.
 Qed.
